@@ -5,6 +5,7 @@ package simrt
 
 import (
 	"context"
+	mrand "math/rand"
 
 	"github.com/oklog/ulid/v2"
 
@@ -79,6 +80,9 @@ func Begin(cfg Config) *Run {
 	runtime.SimSetSeed(cfg.Seed, true)
 	// the patched ulid module (vcheck's ulidOverlay) restarts its process-wide entropy source
 	ulid.SimReseed(int64(cfg.Seed >> 1))
+	// math/rand's global source (workers run with randautoseed=0) is shared by all runs of a worker
+	// process: restart it, so that a run does not depend on how much earlier runs drew from it
+	mrand.Seed(int64(cfg.Seed >> 1)) //nolint:staticcheck
 	return r
 }
 
@@ -424,6 +428,16 @@ func (r *Run) reserve(d int64) int64 {
 	}
 	r.mu.Unlock()
 	return d
+}
+
+// Unique returns a duration close to d whose end instant no other simulated wake-up uses: timers the
+// harness creates for concurrent twins (cancellation, client deadlines) must not fire at the same
+// instant, because the order in which the runtime runs timers of equal expiry is not ours.
+func (r *Run) Unique(d time.Duration) time.Duration {
+	if d <= 0 {
+		d = 1
+	}
+	return time.Duration(r.reserve(int64(d)))
 }
 
 // Yield is a scheduling point: the caller sleeps for a seed-decided amount of virtual time.
